@@ -17,6 +17,11 @@ fn run_focus(cfg: &Cfg, focus: &'static str, level: &str, rule: &str, assumption
     // miners exactly as created, alone in the world
     let ha = HistCfg { variant: Variant::AsCreated, nops: tier.pick(60, 120), dense: false, min_power: 4096, fault_prob, enumerate_faults };
     agg.run_parallel("miners-as-created", tier.pick(16, 300), budget, |i, rng| history(i, rng, &ha, focus));
+    if focus == "C01" {
+        // the other fund-holding actors: payment channels (solvency + conservation) and the market
+        agg.run_parallel("paych", tier.pick(300, 5000), budget, |i, rng| super::c16::history(i, rng, tier, "C01"));
+        agg.run_parallel("market", tier.pick(40, 800), budget, |i, rng| super::c06::history(i, rng, tier, "C01"));
+    }
     agg.finish(level, rule, tier.pick(20, 300), assumptions, serde_json::json!({}))
 }
 
